@@ -133,7 +133,10 @@ def ensure_facts(crates=None, repo=REPO, verbose=True):
     fcntl.flock(lock, fcntl.LOCK_EX)
     try:
         h = tree_hash(repo)
-        outdir = os.path.join(CACHE, "facts", h)
+        # self-test workers analyse scratch variants in parallel; two variants with the same source text (the same change found twice)
+        # must not share - and delete - one fact directory
+        salt = os.environ.get("S3SV_FACTS_SALT")
+        outdir = os.path.join(CACHE, "facts", h + ("-" + salt if salt else ""))
         missing = [c for c in crates if not os.path.exists(os.path.join(outdir, "facts.%s.ok" % c))]
         if missing:
             os.makedirs(outdir, exist_ok=True)
